@@ -33,15 +33,28 @@ func genFaultWorkload(r *rng) (Config, []faultRound) {
 	g := &gen{r: r, o: genOpts{mergeW: 0}, universe: baseUniverse}
 	var rounds []faultRound
 	n := 3 + r.intn(3)
+	// half of the workloads are shaped for leveled (partial) compaction: one big first segment,
+	// then small rounds under CompactionAllow, so that the small segments are spliced in place
+	leveled := r.chance(1, 2)
+	if leveled {
+		cfg.PctN, cfg.PctD = 1, 1
+	}
 	for i := 0; i < n; i++ {
 		b := &tbatch{ops: g.ops(5)}
 		if len(b.ops) == 0 {
 			b.ops = []bop{{'s', []byte("k0"), g.value()}}
 		}
-		if r.chance(1, 4) { // a big value so that compaction buffers flush more than once
+		concern := r.pick([]int{4, 3, 3})
+		if leveled {
+			if i == 0 {
+				b.ops = append(b.ops, bop{'s', []byte("big"), bytes.Repeat([]byte{'A'}, 12000+r.intn(20000))})
+			} else if r.chance(4, 5) {
+				concern = 1
+			}
+		} else if r.chance(1, 4) { // a big value so that compaction buffers flush more than once
 			b.ops = append(b.ops, bop{'s', []byte("big"), bytes.Repeat([]byte{byte('a' + i)}, 9000+r.intn(4000))})
 		}
-		rounds = append(rounds, faultRound{b, r.pick([]int{4, 3, 3})})
+		rounds = append(rounds, faultRound{b, concern})
 	}
 	return cfg, rounds
 }
@@ -98,6 +111,8 @@ type faultRun struct {
 	reopenErr  string
 	caughtUp   bool
 	roundsDone int
+	roundEnds  []int    // number of recorded file operations at the end of each round
+	roundKinds []string // what the store did in each round: append / partial / full / none
 }
 
 // runFaultWorkload executes the workload; faults (possibly nil) are armed
@@ -163,6 +178,8 @@ func runFaultWorkload(cfg Config, rounds []faultRound, faults []*faultSpec, armA
 			return fr
 		}
 		errsBefore := atomic.LoadInt32(&h.onErrors)
+		h.store = s
+		ctrBefore := h.storeCounters()
 		executed = ri + 1
 		if err := (&H{coll: c}).execBatch(rd.batch); err != nil {
 			note("round %d: ExecuteBatch: %v", ri, err)
@@ -232,6 +249,21 @@ func runFaultWorkload(cfg Config, rounds []faultRound, faults []*faultSpec, armA
 			fr.roundsDone = ri + 1
 		}
 		fr.prefixes = append(fr.prefixes, lastPrefix)
+		ctrAfter := h.storeCounters()
+		switch {
+		case ctrAfter.partial > ctrBefore.partial:
+			fr.roundKinds = append(fr.roundKinds, "partial")
+		case ctrAfter.full > ctrBefore.full:
+			fr.roundKinds = append(fr.roundKinds, "full")
+		case ctrAfter.persists > ctrBefore.persists:
+			fr.roundKinds = append(fr.roundKinds, "append")
+		default:
+			fr.roundKinds = append(fr.roundKinds, "none")
+		}
+		h.store = nil
+		rec.mu.Lock()
+		fr.roundEnds = append(fr.roundEnds, len(rec.ops))
+		rec.mu.Unlock()
 	}
 	rec.mu.Lock()
 	fr.ops = append(fr.ops, rec.ops...)
@@ -277,7 +309,8 @@ func famFault(w *bufio.Writer, seed uint64, n int) error {
 		clean := runFaultWorkload(cfg, rounds, nil, -1, dir)
 		os.RemoveAll(dir)
 		emit(L("case", caseID, int64(cs), cfg.sx(), L("universe", L())))
-		emit(L("fault", L("kind", "none"), L("problems", len(clean.problems)), L("surfaced", clean.surfaced),
+		emit(L("fault", L("kind", "none"), L("rounds", fmt.Sprintf("%q", fmt.Sprint(clean.roundKinds))),
+			L("problems", len(clean.problems)), L("surfaced", clean.surfaced),
 			L("triggered", 0), L("caughtup", clean.caughtUp), L("reopen", clean.reopenN, len(rounds)),
 			L("detail", fmt.Sprintf("%q", fmt.Sprint(clean.problems)))))
 		emit(L("end"))
@@ -290,18 +323,53 @@ func famFault(w *bufio.Writer, seed uint64, n int) error {
 		}
 		counts := map[string]int{}
 		var cands []cand
-		for _, op := range clean.ops {
+		// tails[ri]: the candidates among the last operations of round ri (the footer phase:
+		// sync, footer write, sync, stat), where a failure meets the most bookkeeping
+		tails := make([][]cand, len(clean.roundEnds))
+		var partialRounds []int
+		for ri, k := range clean.roundKinds {
+			if k == "partial" {
+				partialRounds = append(partialRounds, ri)
+			}
+		}
+		roundOf := func(i int) int {
+			for ri, e := range clean.roundEnds {
+				if i < e {
+					return ri
+				}
+			}
+			return -1
+		}
+		for i, op := range clean.ops {
 			k := op.Kind
 			if k != "write" && k != "sync" && k != "stat" && k != "create" && k != "open" {
 				continue
 			}
 			key := k + "/" + op.File
-			cands = append(cands, cand{k, op.File, counts[key], op.Off})
+			cd := cand{k, op.File, counts[key], op.Off}
+			cands = append(cands, cd)
 			counts[key]++
+			if ri := roundOf(i); ri >= 0 && k != "create" && k != "open" {
+				tails[ri] = append(tails[ri], cd)
+				if len(tails[ri]) > 6 {
+					tails[ri] = tails[ri][1:]
+				}
+			}
 		}
 		per := 12
 		for j := 0; j < per && caseID < n && len(cands) > 0; j++ {
 			cd := cands[r.intn(len(cands))]
+			where := "any"
+			if r.chance(1, 2) && len(tails) > 0 {
+				ri := r.intn(len(tails))
+				if len(partialRounds) > 0 && r.chance(2, 3) {
+					ri = partialRounds[r.intn(len(partialRounds))]
+				}
+				if len(tails[ri]) > 0 {
+					cd = tails[ri][r.intn(len(tails[ri]))]
+					where = fmt.Sprintf("tail-of-round-%d-%s", ri, clean.roundKinds[ri])
+				}
+			}
 			kind := cd.kind
 			if kind == "create" {
 				kind = "open"
@@ -321,6 +389,7 @@ func famFault(w *bufio.Writer, seed uint64, n int) error {
 			os.RemoveAll(dir)
 			emit(L("case", caseID, int64(cs), cfg.sx(), L("universe", L())))
 			emit(L("fault", L("kind", kind), L("file", fmt.Sprintf("%q", cd.file)), L("nth", cd.nth), L("burst", burst),
+				L("where", where), L("rounds", fmt.Sprintf("%q", fmt.Sprint(fr.roundKinds))),
 				L("problems", len(fr.problems)), L("surfaced", fr.surfaced), L("triggered", fr.triggered),
 				L("caughtup", fr.caughtUp), L("reopen", fr.reopenN, len(rounds)),
 				L("detail", fmt.Sprintf("%q", fmt.Sprint(fr.problems)))))
